@@ -39,6 +39,22 @@ SETLIKE = {"set", "Set", "FrozenSet", "AbstractSet", "MutableSet"}
 DICTLIKE = {"dict", "Dict", "Mapping", "MutableMapping", "OrderedDict", "defaultdict"}
 
 
+def reflective_getattr(node: ast.Call, ctx: Any) -> Optional[ast.Call]:
+    """The ``getattr(obj, name)`` call a reflective call goes through: directly (``getattr(o, n)(...)``) or through
+    a local bound once to it (``m = getattr(o, n); m(...)``)."""
+    f = node.func
+    if isinstance(f, ast.Call) and (dotted(f.func) or "") == "getattr":
+        return f
+    if isinstance(f, ast.Name) and ctx is not None:
+        defs = ctx.local_defs().get(f.id)
+        if defs and len(defs) == 1 and defs[0][0] == "assign" and isinstance(defs[0][1], ast.Call) and (dotted(defs[0][1].func) or "") == "getattr":
+            g = defs[0][1]
+            # only the call-log replay idiom: the method name comes from a stored call (`<call>.name`)
+            if len(g.args) >= 2 and isinstance(g.args[1], ast.Attribute) and g.args[1].attr == "name":
+                return g
+    return None
+
+
 @dataclass(frozen=True)
 class Callable_:
     """A function together with the callables bound to its free 'func' params."""
@@ -831,6 +847,8 @@ class Resolver:
         out: list[tuple[Callable_, str]] = []
         if isinstance(node.func, ast.Name):
             nm = node.func.id
+            if reflective_getattr(node, ctx) is not None:
+                return [], "reflective"
             t = self.type_of_name(nm, ctx)
             if not t:
                 import builtins
